@@ -1,0 +1,60 @@
+//go:build verif
+
+// Contracts for the gowp verifier (/verif). Comment-only file: compiled only with -tags verif and
+// contributes no code either way.
+
+package netann
+
+//@ func validateChannelAnn1
+//@   props C20
+//@   site return nil: assert ret(Verify, 0) && ret(Verify, 1) && ret(Verify, 2) && ret(Verify, 3)
+//@   site call DataToSign: assert arg(0) == a
+//@   site call DoubleHashB: assert arg(0) == retn(DataToSign, 0) && retn(DataToSign, 1) == nil
+//@   site call ToSignature nth 0: assert arg(0) == addr(a.BitcoinSig1)
+//@   site call ToSignature nth 1: assert arg(0) == addr(a.BitcoinSig2)
+//@   site call ToSignature nth 2: assert arg(0) == addr(a.NodeSig1)
+//@   site call ToSignature nth 3: assert arg(0) == addr(a.NodeSig2)
+//@   site call ParsePubKey nth 0: assert arg(0) == sliceof(a.BitcoinKey1)
+//@   site call ParsePubKey nth 1: assert arg(0) == sliceof(a.BitcoinKey2)
+//@   site call ParsePubKey nth 2: assert arg(0) == sliceof(a.NodeID1)
+//@   site call ParsePubKey nth 3: assert arg(0) == sliceof(a.NodeID2)
+//@   site call Verify nth 0: assert arg(0) == retn(ToSignature, 0, 0) && retn(ToSignature, 1, 0) == nil &&
+//@        arg(1) == ret(DoubleHashB) && arg(2) == retn(ParsePubKey, 0, 0) && retn(ParsePubKey, 1, 0) == nil
+//@   site call Verify nth 1: assert arg(0) == retn(ToSignature, 0, 1) && retn(ToSignature, 1, 1) == nil &&
+//@        arg(1) == ret(DoubleHashB) && arg(2) == retn(ParsePubKey, 0, 1) && retn(ParsePubKey, 1, 1) == nil
+//@   site call Verify nth 2: assert arg(0) == retn(ToSignature, 0, 2) && retn(ToSignature, 1, 2) == nil &&
+//@        arg(1) == ret(DoubleHashB) && arg(2) == retn(ParsePubKey, 0, 2) && retn(ParsePubKey, 1, 2) == nil
+//@   site call Verify nth 3: assert arg(0) == retn(ToSignature, 0, 3) && retn(ToSignature, 1, 3) == nil &&
+//@        arg(1) == ret(DoubleHashB) && arg(2) == retn(ParsePubKey, 0, 3) && retn(ParsePubKey, 1, 3) == nil
+//@
+//@ func ValidateChannelAnn
+//@   props C20
+//@   ensures result == nil ==> (typeis(a, *lnwire.ChannelAnnouncement1) && ret(validateChannelAnn1) == nil) ||
+//@           (typeis(a, *lnwire.ChannelAnnouncement2) && ret(validateChannelAnn2) == nil)
+//@
+//@ func verifyChannelUpdate1Signature
+//@   props C20
+//@   site return nil: assert ret(Verify)
+//@   site call DataToSign: assert arg(0) == msg
+//@   site call DoubleHashB: assert arg(0) == retn(DataToSign, 0) && retn(DataToSign, 1) == nil
+//@   site call ToSignature: assert arg(0) == addr(msg.Signature)
+//@   site call Verify: assert arg(0) == retn(ToSignature, 0) && retn(ToSignature, 1) == nil && arg(1) == ret(DoubleHashB) && arg(2) == pubKey
+//@
+//@ func VerifyChannelUpdateSignature
+//@   props C20
+//@   ensures result == nil ==> (typeis(msg, *lnwire.ChannelUpdate1) && ret(verifyChannelUpdate1Signature) == nil) ||
+//@           (typeis(msg, *lnwire.ChannelUpdate2) && ret(verifyChannelUpdate2Signature) == nil)
+//@   site call verifyChannelUpdate1Signature: assert arg(pubKey) == pubKey
+//@   site call verifyChannelUpdate2Signature: assert arg(pubKey) == pubKey
+//@
+//@ func ValidateChannelUpdateAnn
+//@   props C20
+//@   ensures result == nil ==> ret(ValidateChannelUpdateFields) == nil && ret(VerifyChannelUpdateSignature) == nil
+//@   site call ValidateChannelUpdateFields: assert arg(capacity) == capacity && arg(msg) == a
+//@   site call VerifyChannelUpdateSignature: assert arg(msg) == a && arg(pubKey) == pubKey
+//@
+//@ func validateChannelUpdate1Fields
+//@   props C20
+//@   ensures result == nil ==> ret(HasMaxHtlc) && msg.HtlcMaximumMsat != 0 && msg.HtlcMaximumMsat >= msg.HtlcMinimumMsat &&
+//@           (ret(NewMSatFromSatoshis) == 0 || msg.HtlcMaximumMsat <= ret(NewMSatFromSatoshis))
+//@   site call NewMSatFromSatoshis: assert arg(0) == capacity
